@@ -118,6 +118,10 @@ func findSeq(p *Prog) (*seqInfo, string) {
 
 func c05(c *Ctx) {
 	p, r := c.K1(), c.R
+	if !c.importing {
+		// R5: what a call returns is computed by the selection function on every call (C04.R2): no remembered result
+		importSibling(c, "C04", "C05.R5", func(rule string) bool { return rule == "C04.R2" })
+	}
 	r.Expl = "Structural clauses behind 'result sequences are served in order and stick at the last element': the cursor is a per-matcher struct field advanced only by atomic +const; every index into the result list is proven in range by difference-constraint reasoning over the dominating branch conditions; the advancing path serves the pre-increment position, non-advancing paths serve the last element; Return/AndReturn feed the open condition's or the default's list first-write-wins. Schedules themselves are not explored."
 	r.RuleText = "one obligation per (rule, function/field/call site); distinct = distinct rule×construct pairs; all are non-trivial (each names a concrete SSA construct of /repo)"
 	r.Floor("C05.R2", 2)
@@ -363,46 +367,46 @@ func c05(c *Ctx) {
 			}
 			baseCons := cons
 			for _, cs := range cases {
-			cons := baseCons + cs.label
-			m := NewDBM()
-			axioms(m)
-			guardListToDBM(m, k, cs.gs)
-			idx := k.TermOf(cs.idx)
-			// plain cursor load on the fast path: cursor==0 there by I1 (checked above)
-			if ul, ok := peel(cs.idx).(*ssa.UnOp); ok && ul.Op == token.MUL && isCur(ul.X) {
-				if m.EntailsLE(n, Term{"", 1}) {
-					m.AddLE(idx, Term{"", 0})
-					m.AddLE(Term{"", 0}, idx)
+				cons := baseCons + cs.label
+				m := NewDBM()
+				axioms(m)
+				guardListToDBM(m, k, cs.gs)
+				idx := k.TermOf(cs.idx)
+				// plain cursor load on the fast path: cursor==0 there by I1 (checked above)
+				if ul, ok := peel(cs.idx).(*ssa.UnOp); ok && ul.Op == token.MUL && isCur(ul.X) {
+					if m.EntailsLE(n, Term{"", 1}) {
+						m.AddLE(idx, Term{"", 0})
+						m.AddLE(Term{"", 0}, idx)
+					}
 				}
-			}
-			inRange := m.EntailsLE(Term{"", 0}, idx) && m.EntailsLE(idx, Term{n.Var, n.K - 1})
-			if !r.Check(inRange, "C05.R3", cons, p.Pos(posOf(ret)), "index "+idx.String()+" proven within [0,len-1]",
-				"index "+idx.String()+" into the result list is not proven within [0,len-1] by the dominating conditions: a call can panic or read a wrong element") {
-				continue
-			}
-			advancing := false
-			var domAdd ssa.Instruction
-			for _, a := range adds {
-				if (cs.label == "" && domInstr(a, ret)) || (cs.label != "" && (a.Block() == cs.at || a.Block().Dominates(cs.at))) {
-					advancing, domAdd = true, a
+				inRange := m.EntailsLE(Term{"", 0}, idx) && m.EntailsLE(idx, Term{n.Var, n.K - 1})
+				if !r.Check(inRange, "C05.R3", cons, p.Pos(posOf(ret)), "index "+idx.String()+" proven within [0,len-1]",
+					"index "+idx.String()+" into the result list is not proven within [0,len-1] by the dominating conditions: a call can panic or read a wrong element") {
+					continue
 				}
-			}
-			if advancing {
-				// must serve the pre-increment position: an atomic load that precedes the add, or add-result-1
-				okPos := false
-				if atomicLoads[idx.Var] && idx.K == 0 {
-					okPos = true
+				advancing := false
+				var domAdd ssa.Instruction
+				for _, a := range adds {
+					if (cs.label == "" && domInstr(a, ret)) || (cs.label != "" && (a.Block() == cs.at || a.Block().Dominates(cs.at))) {
+						advancing, domAdd = true, a
+					}
 				}
-				if cv, ok := domAdd.(ssa.Value); ok && idx.Var == k.Key(cv) && idx.K == -1 {
-					okPos = true
+				if advancing {
+					// must serve the pre-increment position: an atomic load that precedes the add, or add-result-1
+					okPos := false
+					if atomicLoads[idx.Var] && idx.K == 0 {
+						okPos = true
+					}
+					if cv, ok := domAdd.(ssa.Value); ok && idx.Var == k.Key(cv) && idx.K == -1 {
+						okPos = true
+					}
+					r.Check(okPos, "C05.R3", cons+" serves pre-increment position", p.Pos(posOf(ret)), "k-th call serves position k",
+						"the advancing path does not serve the position read before the increment")
+				} else {
+					last := m.EntailsLE(Term{n.Var, n.K - 1}, idx)
+					r.Check(last, "C05.R3", cons+" serves last element", p.Pos(posOf(ret)), "non-advancing path serves the last element",
+						"a path that does not advance the cursor serves an element other than the last one: the sequence does not stick at its last element")
 				}
-				r.Check(okPos, "C05.R3", cons+" serves pre-increment position", p.Pos(posOf(ret)), "k-th call serves position k",
-					"the advancing path does not serve the position read before the increment")
-			} else {
-				last := m.EntailsLE(Term{n.Var, n.K - 1}, idx)
-				r.Check(last, "C05.R3", cons+" serves last element", p.Pos(posOf(ret)), "non-advancing path serves the last element",
-					"a path that does not advance the cursor serves an element other than the last one: the sequence does not stick at its last element")
-			}
 			}
 		}
 	}
